@@ -37,6 +37,13 @@ Definition set (k : key) (e : entry) (b : baseline) : baseline := (k, e) :: remo
 
 Definition keys (b : baseline) : list key := map fst b.
 
+(* Baseline::load re-keys every entry through path_key (fix D08). Two entries of a legacy file
+   whose keys collide after normalisation are merged by the HashMap in an unspecified order; here
+   the first one in list order is the one lookup sees. *)
+Definition rekey (b : baseline) : baseline := map (fun p => (norm_key (fst p), snd p)) b.
+Definition view (disk : option baseline) : option baseline :=
+  match disk with Some b => Some (rekey b) | None => None end.
+
 Definition is_content_entry (e : entry) : bool :=
   match e with EContent _ _ => true | EStructure _ _ => false end.
 Definition is_structure_entry (e : entry) : bool :=
